@@ -42,7 +42,9 @@ func (r *Rng) wStr() string {
 		return pick(r, smallStrs)
 	}
 }
-func (r *Rng) wMask() resset.Action { return resset.Action(pick(r, []uint64{0, 1, 31, 127, 128, 255, 256, 65535, r.U64()})) }
+func (r *Rng) wMask() resset.Action {
+	return resset.Action(pick(r, []uint64{0, 1, 31, 127, 128, 255, 256, 65535, r.U64()}))
+}
 func (r *Rng) wStrSet() resset.ResourceSet[string, resset.Action] {
 	n := pick(r, []int{0, 1, 2, 3, 5, 15, 16, 17})
 	m := resset.ResourceSet[string, resset.Action]{}
